@@ -27,6 +27,24 @@ CHECKS = {
  "C08": ("Real LookaheadDFA::eval over real TokenStreams on valid, corrupted, truncated and random token buffers for every generated automaton; result must be the production whose lookahead string prefixes the buffer, or a prediction error.",
          "Buffers are rendered as text and scanned by the real scanner; buffers the scanner tokenizes differently are discarded and counted.",
          "property-based testing (proptest): differential against a reference model"),
+ "C09": ("Generated EBNF grammar texts (nesting <= 3, helper-looking and undefined names) read as ll(k) and lalr(1): the bounded language (all sentences up to length 6, per non-terminal too) of the written EBNF equals that of the derived plain productions; random longer derivations cross-checked by chart recognisers; introduced names must be unused names.",
+         "Language equality is decided exhaustively only up to sentence length 6 over <= 5 terminals (beyond that by sampled derivations).",
+         "property-based testing (proptest): two-sided bounded language equivalence against the generator's AST"),
+ "C10": ("Generated prefix-heavy grammars passed to the public left_factor: terminates, bounded language unchanged (also per original non-terminal), no two non-empty alternatives of a non-terminal share their first symbol, new names unused.",
+         "Language equality exhaustive up to length 6 over <= 3 terminals, sampled beyond.",
+         "property-based testing (proptest): metamorphic (language-preserving transformation) + structural invariant"),
+ "C11": ("Generated wild BNF Cfg values with all pathologies: nullable / non-productive / unreachable / left-recursive sets equal the sets computed from the definitions; check_and_transform_grammar fails iff and names exactly the first non-empty offending set.",
+         "Cfg values are built through parol's public constructors; all referenced names are defined and the start symbol has a production (documented precondition of the set functions).",
+         "property-based testing (proptest): differential against reference definitions"),
+ "C12": ("Generated lalr(1)-typed grammars (numbered start symbols with numbered siblings, recursive single-production start symbols): the grammar handed to table construction has an isolated single-production start symbol with a fresh name and the same bounded language.",
+         "Language equality exhaustive up to length 6 over <= 4 terminals, sampled beyond.",
+         "property-based testing (proptest): metamorphic (language-preserving transformation) + structural invariant"),
+ "C31": ("Generated pairs of token sequences: the recovery's edit script applied as adjust_token_stream applies it yields the expected sequence; non-keep count = reported distance = Wagner-Fischer distance.",
+         "Reaches the crate-private function through a cfg-guarded re-export.",
+         "property-based testing (proptest): differential against a reference implementation + script validation"),
+ "C32": ("Generated operation histories on packed Terminals / KTuple / KTuples at every bit-width boundary and k in 0..=10, mirrored on Vec<u16> / set-of-sequence models; observers, equality, hash and ordering must be functions of the denoted sequence.",
+         "KTuple equality is only demanded between values with equal sequence, k and completeness; pushing onto the epsilon value is excluded (no documented meaning).",
+         "property-based testing (proptest): model-based (state machine) testing against a sequence model"),
 }
 
 def main():
